@@ -133,7 +133,7 @@ func sizes(typ *types.Struct, prefix string, base int64, out []st.Field) []st.Fi
 		return out
 	}
 	field := &out[len(out)-1]
-	if field.Size == 0 {
+	if field.Size == 0 && field.End > base {
 		field.Size = 1
 		field.End++
 	}
